@@ -193,6 +193,7 @@ func Load(conf Config) (*Prog, error) {
 	if len(p.Funcs) < 500 {
 		return nil, fmt.Errorf("load: only %d in-scope functions (expected >= 500)", len(p.Funcs))
 	}
+	p.markRecvLike()
 	p.canonComparisons()
 	p.onceBodies()
 	p.resolveChanParams()
@@ -380,8 +381,13 @@ func (p *Prog) FuncName(fn *ssa.Function) string {
 	}
 	rel, ok := p.FuncRel(fn)
 	name := fn.Name()
-	if fn.Signature.Recv() != nil {
-		t := fn.Signature.Recv().Type()
+	if fn.Signature.Recv() != nil || recvLike[fn] {
+		var t types.Type
+		if fn.Signature.Recv() != nil {
+			t = fn.Signature.Recv().Type()
+		} else {
+			t = fn.Params[0].Type()
+		}
 		star := ""
 		if pt, ok := t.(*types.Pointer); ok {
 			t = pt.Elem()
@@ -483,8 +489,63 @@ func (p *Prog) Func(rel, recv, name string) *ssa.Function {
 			}
 		}
 	}
+	// a private method rewritten as a package function that takes the former receiver as its
+	// first argument (`func cancelSend(c *context)`) is the same mechanism: its first
+	// parameter is then described as the receiver
+	if lowerName(name) {
+		if fn := sp.Func(name); fn != nil && len(fn.Params) > 0 && fn.Signature.Recv() == nil {
+			t := fn.Params[0].Type()
+			if pt, ok := t.(*types.Pointer); ok {
+				t = pt.Elem()
+			}
+			if n, ok := t.(*types.Named); ok && n.Obj() == tn && recvLike[fn] {
+				return fn
+			}
+		}
+	}
 	return nil
 }
+
+// markRecvLike: every private package function whose first parameter is (a pointer to) a
+// struct type of its own package that has no method of that name.
+func (p *Prog) markRecvLike() {
+	recvLike = map[*ssa.Function]bool{}
+	for fn := range p.All {
+		if fn.Parent() != nil || fn.Signature.Recv() != nil || len(fn.Params) == 0 || fn.Pkg == nil || !lowerName(fn.Name()) || fn.Synthetic != "" {
+			continue
+		}
+		if _, ok := p.FuncRel(fn); !ok {
+			continue
+		}
+		t := fn.Params[0].Type()
+		if pt, ok := t.(*types.Pointer); ok {
+			t = pt.Elem()
+		}
+		n, ok := t.(*types.Named)
+		if !ok || n.Obj().Pkg() != fn.Pkg.Pkg {
+			continue
+		}
+		if _, isStruct := n.Underlying().(*types.Struct); !isStruct {
+			continue
+		}
+		has := false
+		for _, tt := range []types.Type{types.NewPointer(n), n} {
+			ms := p.SSA.MethodSets.MethodSet(tt)
+			for i := 0; i < ms.Len(); i++ {
+				if ms.At(i).Obj().Name() == fn.Name() {
+					has = true
+				}
+			}
+		}
+		if !has {
+			recvLike[fn] = true
+		}
+	}
+}
+
+// recvLike: package functions standing in for methods (see Func); paramName calls their first
+// parameter "recv".
+var recvLike = map[*ssa.Function]bool{}
 
 // Closures returns the anonymous functions directly nested in fn, in source order.
 func Closures(fn *ssa.Function) []*ssa.Function { return fn.AnonFuncs }
